@@ -232,6 +232,26 @@ def ev_spell(case, rec):
                     rec.outcome('spelling-bad')
                 else:
                     rec.outcome('spelling-ok')
+        # the parameters of a query string carry names: their ORDER is free (every permutation of the numeric parameters, with the
+        # angle-type switches in front, behind and in between)
+        sw = [s for s in extra.split('&') if s]
+        for perm in itertools.permutations(range(len(keys))):
+            num = ['%s=%s' % (keys[i], vals[i]) for i in perm]
+            for parts in (num + sw, sw + num, num[:2] + sw + num[2:], num[:1] + sw[:1] + num[1:] + sw[1:]):
+                url = '/%s?%s' % (route, '&'.join(parts))
+                st, resp = rec.call(c.get, url)
+                rec.nontriv((route, ft, tt, 'order', tuple(parts)))
+                if st != 'ok' or resp.status_code != 200 or resp.data != base.data:
+                    rec.fail('the same query with its parameters in another order is answered differently', site='api:%s:parameter-order' % route,
+                             observed=resp if st != 'ok' else [resp.status_code, resp.data[:160].decode('latin1')],
+                             expected=[200, base.data[:160].decode('latin1')], case=dict(case, url=url), coords={'from': ft, 'to': tt, 'order': parts})
+                    rec.outcome('order-bad')
+                    break
+            else:
+                continue
+            break
+        else:
+            rec.outcome('order-ok')
     rec.sample(case)
 
 
